@@ -11,7 +11,7 @@ SHARDS = {'quick': 1, 'thorough': 1}
 
 # symbol -> (transient?, builder(k)) ; every response carries the unique marker k
 TRANSIENT = ['T500', 'T503', 'V500', 'V502']
-TERMINAL = ['OK', 'P500', 'X500', 'XT500', 'N500', 'N502', 'E401', 'E404', 'E400', 'T400', 'BADJSON500', 'EMPTY500']
+TERMINAL = ['OK', 'P500', 'X500', 'XT500', 'TX500', 'XT2_500', 'N500', 'N502', 'E401', 'E404', 'E400', 'T400', 'BADJSON500', 'EMPTY500']
 QUICK_TRANSIENT = ['T500', 'V500']
 
 
@@ -29,6 +29,12 @@ def build(sym, k, url):
         return mk(500, [{'kind': 'permanent', 'id': 'proto.alpha.michelson_v1.script_rejected', 'msg': 'r%d' % k}], url=url)
     if sym == 'XT500':  # protocol error marked temporary: must NOT be retried
         return mk(500, [{'kind': 'temporary', 'id': 'proto.alpha.contract.counter_in_the_future', 'msg': 'r%d' % k}], url=url)
+    if sym == 'TX500':    # a temporary node error followed by a protocol error: the response carries a protocol error
+        return mk(500, [{'kind': 'temporary', 'id': 'node.prevalidation.busy', 'msg': 'q%d' % k},
+                        {'kind': 'permanent', 'id': 'proto.alpha.michelson_v1.runtime_error', 'msg': 'r%d' % k}], url=url)
+    if sym == 'XT2_500':
+        return mk(500, [{'kind': 'temporary', 'id': 'proto.alpha.gas_exhausted.operation', 'msg': 'q%d' % k},
+                        {'kind': 'temporary', 'id': 'node.prevalidation.busy', 'msg': 'r%d' % k}], url=url)
     if sym in ('N500', 'N502'):
         return mk(int(sym[1:]), text='<html>Bad gateway r%d</html>' % k, ctype='text/html', url=url)
     if sym == 'BADJSON500':
